@@ -128,6 +128,19 @@ class Monitor:
                                               "MVR lacks contest under style")) or any(abs(x - 0.5 * u) > 1e-9 for x in d):
                 out.nontrivial = True
         self.last = {k: v[1] for k, v in data.items()}
+        # observe the bound in force *while* each test runs (set_p_values comes next)
+        self.seen = {}
+        for cid, con in run.contests.items():
+            for key, asn in con.assertions.items():
+                t = asn.test
+                inner = t.__dict__.get("_c06_inner") or t.test
+
+                def spy(x, _t=t, _inner=inner, _k=(cid, key), **kw):
+                    self.seen[_k] = float(_t.u)
+                    return _inner(x, **kw)
+
+                t.__dict__["_c06_inner"] = inner
+                t.test = spy
 
     def after_pvalues(self, run, r, p_max, done):
         for cid, con in run.contests.items():
@@ -135,7 +148,11 @@ class Monitor:
                 u = self.last.get((cid, key))
                 if u is not None and not same(asn.test.u, u):
                     self.out.violate("C06.c", f"installed/{run.world['audit_type']}",
-                                     f"{cid}/{key}: data came with bound {u} but the test was run with u={asn.test.u}")
+                                     f"{cid}/{key}: data came with bound {u} but the test is left with u={asn.test.u}")
+                su = self.seen.get((cid, key))
+                if u is not None and su is not None and not same(su, u):
+                    self.out.violate("C06.c", f"in-force/{run.world['audit_type']}",
+                                     f"{cid}/{key}: data came with bound {u} but while the p-values were computed the test had u={su}")
 
 
 def execute(case):
